@@ -378,32 +378,37 @@ def workload(ctx, repo):
     # cycle, dumped in another representation with a literal zone that
     # carries the point over midnight (and so over a week-year / year edge)
     if ctx.worker == 0:
-        for y in range(2000, 2028):
-            ny = R.days_before_year("gregorian", y + 1)
-            for rd in (ny - 4, ny - 3, ny - 1, ny, ny + 2, ny + 3):
-                for late in (True, False):
-                    src = gen.REPS[(rd + y) % 3]
-                    kw = gen.date_kwargs("gregorian", src, rd)
-                    kw.update({"hour_of_day": 23 if late else 0,
-                               "minute_of_hour": 30, "second_of_minute": 0})
-                    kw.update(gen.zone_kwargs((0, 0)))
-                    tgt = 60 if late else -60
-                    for rep, dfmt in (("week", "CCYY-Www-D"),
-                                      ("ord", "CCYY-DDD"),
-                                      ("cal", "CCYY-MM-DD")):
-                        if rep == src:
-                            continue
-                        fmt = dfmt + "Thh:mm:ss" + ("+01:00" if late
-                                                    else "-01:00")
-                        case = {"op": "custom", "p": kw, "fmt": fmt,
-                                "mode": "gregorian", "reader": y % 4,
-                                "spec": {"rep": rep, "ext": True, "nexp": 0,
-                                         "smallest": "hms",
-                                         "zkind": "literal-zone",
-                                         "target_off": tgt}}
-                        ctx.case = case
-                        ctx.ev("cases.new-year-dumps")
-                        run_case(ctx, repo, case)
+        for mode in R.MODES:
+            for y in range(2000, 2028 if mode == "gregorian" else 2012):
+                ny = R.days_before_year(mode, y + 1)
+                ws = R.week_start(mode, y + 1)
+                for rd in sorted({ny - 4, ny - 3, ny - 1, ny, ny + 2, ny + 3,
+                                  ws - 1, ws}):
+                    for late in (True, False):
+                        src = gen.REPS[(rd + y) % 3]
+                        kw = gen.date_kwargs(mode, src, rd)
+                        kw.update({"hour_of_day": 23 if late else 0,
+                                   "minute_of_hour": 30,
+                                   "second_of_minute": 0})
+                        kw.update(gen.zone_kwargs((0, 0)))
+                        tgt = 60 if late else -60
+                        for rep, dfmt in (("week", "CCYY-Www-D"),
+                                          ("ord", "CCYY-DDD"),
+                                          ("cal", "CCYY-MM-DD")):
+                            if rep == src and mode == "gregorian" and \
+                                    rd not in (ws - 1, ws):
+                                continue
+                            fmt = dfmt + "Thh:mm:ss" + ("+01:00" if late
+                                                        else "-01:00")
+                            case = {"op": "custom", "p": kw, "fmt": fmt,
+                                    "mode": mode, "reader": y % 4,
+                                    "spec": {"rep": rep, "ext": True,
+                                             "nexp": 0, "smallest": "hms",
+                                             "zkind": "literal-zone",
+                                             "target_off": tgt}}
+                            ctx.case = case
+                            ctx.ev("cases.new-year-dumps")
+                            run_case(ctx, repo, case)
     # sub-hour offsets of either sign dumped with sub-hour literal zones of
     # either sign
     if ctx.worker == 0:
